@@ -6,6 +6,7 @@ from .. import astq, spec
 from .. import sym as S
 from ..cfg import CFG
 from ..dataflow import containing_node
+from ..report import MISSING
 from ..model import AnalysisError
 from ..symeval import SymEval
 from . import cli_common as cc
@@ -123,7 +124,7 @@ def delegation(ctx, R="R-C01-si-full"):
     rets = astq.returns_of(f)
     ok = len(rets) == 1 and isinstance(rets[0].value, ast.Call) and prog.resolve(f.module, rets[0].value.func, f) is prog.func("compute.frame_by_frame_calculation") \
         and [astq.text(a) for a in rets[0].value.args] == [f.params[0], f.params[1]] and not rets[0].value.keywords
-    ctx.check(ok, R, f, rets[0] if rets else f.node, "the default compute_full is frame_by_frame_calculation(self, signal)",
+    ctx.check(ok, R, f, rets[0] if rets else MISSING(f.node), "the default compute_full is frame_by_frame_calculation(self, signal)",
               "FrameComputer.compute_full is %s" % (astq.text(rets[0].value) if rets else None))
     si = prog.cls("compute.ShortIntegrationFrameComputer")
     g = prog.own_method(si, "compute_full")
@@ -256,13 +257,13 @@ def carry(ctx, R="R-C01-carry"):
             ctx.check(ok, R, f, r, "self.%s is written on every path to this return" % attr,
                       "compute_chunk can return without updating self.%s; the next chunk would start from stale state" % attr)
     bl = [n for n in f.body_nodes() if isinstance(n, ast.Assign) and any(astq.is_self_attr(t, f.params[0], "_buf_len") for t in n.targets)]
-    ctx.check(len(bl) == 1 and astq.text(bl[0].value) == "rem_len", R, f, bl[0] if bl else f.node,
+    ctx.check(len(bl) == 1 and astq.text(bl[0].value) == "rem_len", R, f, bl[0] if bl else MISSING(f.node),
               "the fill count carried to the next chunk is the number of samples not yet covered by an emitted frame")
     ev = SymEval(prog, f, rename=sc.NP_RENAME, seed={"self._frame_style": "causal"}, inline_props=False).run()
     rem = [n for n in f.body_nodes() if isinstance(n, ast.Assign) and astq.is_name(n.targets[0], "rem_len")]
     ctx.need(len(rem) == 1, R, "rem_len assignment not found")
     v = ev.eval_at(rem[0], rem[0].value)
-    ctx.check(astq.text(rem[0].value).replace(" ", "") == "total_len-num_frames*frame_shift", R, f, rem[0],
+    ctx.check(astq.eq_text(rem[0].value, "total_len-num_frames*frame_shift"), R, f, rem[0],
               "remainder = samples available - frames emitted x shift", "remainder is %s" % astq.text(rem[0].value))
     nfr = [n for n in f.body_nodes() if isinstance(n, ast.Assign) and astq.is_name(n.targets[0], "num_frames")]
     v = ev.eval_at(nfr[0], nfr[0].value)
